@@ -53,6 +53,17 @@ def gen_case(rng: random.Random, tier: str) -> dict:
         if rng.random() < 0.4:
             # legal answers that happen to be falsy
             nd["resp"] = [rng.choice(["zero", "false", "empty_str", "empty_list", None]) for _ in nd["outs"]]
+    # some interrupts also emit an ordering signal that a further node waits for
+    extra = []
+    for i in picks:
+        nd = g["nodes"][i]
+        if rng.random() < 0.4:
+            nd["emit"] = ["isig_" + nd["name"]]
+            extra.append((i, {"kind": "fn", "name": "w_" + nd["name"], "params": [], "outs": ["wo_" + nd["name"]], "wait_for": ["isig_" + nd["name"]]}))
+    for i, wnode in sorted(extra, key=lambda t: -t[0]):
+        g["nodes"].insert(i + 1, wnode)
+    g["order"] = list(range(len(g["nodes"])))
+    rng.shuffle(g["order"])
     # external defaults must stay consistent: drop defaults of names an interrupt consumes
     int_consumed = set()
     for nd in g["nodes"]:
@@ -65,7 +76,8 @@ def gen_case(rng: random.Random, tier: str) -> dict:
                 p.pop("default", None)
     nest = rng.choice([0, 0, 0, 1, 2])
     inp = gen.gen_inputs(rng, g, p_bind=0.0, p_omit=0.3)
-    return {"graph": g, "inputs": inp, "script": script, "nest": nest, "nest_seed": rng.randrange(1 << 30), "cfg": gen.gen_async_cfg(rng, allow_hold=False), "ref_cfg": gen.gen_async_cfg(rng, allow_hold=False)}
+    return {"graph": g, "inputs": inp, "script": script, "nest": nest, "nest_seed": rng.randrange(1 << 30), "cfg": gen.gen_async_cfg(rng, allow_hold=False), "ref_cfg": gen.gen_async_cfg(rng, allow_hold=False),
+            "explicit_select": rng.random() < 0.3}  # select=<all data outputs>, on_missing="error" on every call of the history
 
 
 def _graph_name(nd: dict, p: dict) -> str:
@@ -74,6 +86,7 @@ def _graph_name(nd: dict, p: dict) -> str:
 
 def _tables(g: dict):
     prod = {o: nd["name"] for nd in g["nodes"] for o in nd["outs"]}
+    sigprod = {e: nd["name"] for nd in g["nodes"] for e in nd.get("emit", [])}
     parents: dict[str, set] = {}
     for nd in g["nodes"]:
         ps = set()
@@ -81,6 +94,10 @@ def _tables(g: dict):
             src = prod.get(_graph_name(nd, p))
             if src:
                 ps.add(src)
+        for wn in nd.get("wait_for", []):
+            src = sigprod.get(wn) or prod.get(wn)
+            if src:
+                ps.add(src)  # a node waiting for the interrupt's signal depends on it as well
         parents[nd["name"]] = ps
     anc: dict[str, set] = {}
     for nd in g["nodes"]:  # topological
@@ -130,9 +147,14 @@ def run_case(doc: dict) -> dict:
                 prov[r] = inp["provide"].get(r, 17)
         return prov
 
+    rkw = {}
+    if doc.get("explicit_select"):
+        names = [o for nd in g["nodes"] for o in nd["outs"]]
+        if names:
+            rkw = {"select": names, "on_missing": "error"}
     try:
         # reference: every handler answers itself
-        wref = run_world(g, values0, mode="async", cfg=doc["ref_cfg"])
+        wref = run_world(g, values0, mode="async", cfg=doc["ref_cfg"], run_kwargs=dict(rkw))
         rts.append(wref["rt"])
         res["runs"] += 1
         ref = wref["out"]
@@ -157,7 +179,7 @@ def run_case(doc: dict) -> dict:
             for nd in gs["nodes"]:
                 if nd["kind"] == "interrupt":
                     nd["script"] = list(script.get(nd["name"], []))
-            w = run_world(gs, dict(held), mode="async", cfg=doc["cfg"])
+            w = run_world(gs, dict(held), mode="async", cfg=doc["cfg"], run_kwargs=dict(rkw))
             rts.append(w["rt"])
             res["runs"] += 1
             sim_stats(res, w["out"])
@@ -203,8 +225,19 @@ def run_case(doc: dict) -> dict:
                 wrong = {k: (v, ref["values"].get(k)) for k, v in vals.items() if k in ref["values"] and canon(v) != canon(ref["values"][k])}
                 if wrong:
                     viol.append((f"{tag}:paused_result_has_wrong_value", {"diff(got,reference)": wrong}))
+                n_pauses = sum(1 for h in rt.history if h["k"] == "handler_pause")
+                if n_pauses != 1:
+                    viol.append((f"{tag}:interrupts_did_not_pause_one_at_a_time", {"handlers_that_returned_none_in_this_run": n_pauses}))
                 committed = {}
                 for h in rt.history:
+                    if h["k"] == "exit" and h.get("nk") == "interrupt" and h.get("v") is not None:
+                        # an interrupt whose handler answered by itself in this run: its answer is a computed value too
+                        outs_i = ints[h["n"]]["outs"] if h["n"] in ints else []
+                        v = h["v"]
+                        if len(outs_i) == 1:
+                            committed[outs_i[0]] = v
+                        elif isinstance(v, dict):
+                            committed.update({k: x for k, x in v.items() if k in outs_i})  # (the framework adds signal keys to the handler's dict)
                     if h["k"] == "exit" and h.get("nk") is None:
                         spec = rt.node_specs.get(h["n"])
                         outs = spec.get("outs", []) if spec else []
